@@ -155,21 +155,45 @@ _NL: /(\r?\n[\t ]*)+/
 %ignore /[ \t]+/
 '''
 
+# instances that share a cache location: the options below change the result on these grammars, so a parser restored for the wrong configuration is visible
+CACHE_GRAMMARS = ['start: (A | B)+\nA.2: /a/\nB: /a+/\n%ignore " "\n', 'start: [A] "b" A\nA: "a"\n%ignore " "\n', 'start: x+\n?x: "(" A ")" | A\nA: "a"\n%ignore " "\n']
+CACHE_VARIANTS = [{}, {'priority': None}, {'priority': 'invert'}, {'keep_all_tokens': True}, {'maybe_placeholders': False}, {'priority': 'normal'}, {'lexer': 'basic'}, {'propagate_positions': True}]
+
+
 def _history(args):
     g, seed, indent = args
+    import tempfile, shutil, os, logging
+    logging.getLogger('lark').setLevel(logging.CRITICAL)
+    try:
+        return _history_(g, seed, indent)
+    finally:
+        import glob
+        for d in glob.glob(os.path.join(tempfile.gettempdir(), 'larkverif_c10_%d_*' % os.getpid())):
+            shutil.rmtree(d, ignore_errors=True)
+
+
+def _history_(g, seed, indent):
+    import tempfile, os
     from lark import Lark, Tree, Token
     from lark.exceptions import UnexpectedInput, GrammarError, LarkError
     from lark.indenter import Indenter, DedentError
     rng = random.Random(seed)
     Ind = type('Ind', (Indenter,), dict(NL_type='_NL', OPEN_PAREN_types=['LPAR'], CLOSE_PAREN_types=['RPAR'], INDENT_type='_INDENT', DEDENT_type='_DEDENT', tab_len=8))
-    def mk():
+    cached = (not indent) and rng.random() < 0.25
+    cpath = None
+    if cached:
+        g = rng.choice(CACHE_GRAMMARS)
+        cpath = os.path.join(tempfile.mkdtemp(prefix='larkverif_c10_%d_' % os.getpid()), 'cache.bin')
+    def mk(cache=None, kw_=None):
         if indent:
             return Lark(INDENT_G, parser='lalr', lexer=rng.choice(['basic', 'contextual']) if False else 'basic', postlex=Ind())
-        return Lark(g, parser='lalr', **kw)
-    kw = dict(lexer=rng.choice(['basic', 'contextual']), propagate_positions=rng.random() < 0.5)
+        if cache:
+            return Lark(g, parser='lalr', cache=cpath, **(kw if kw_ is None else kw_))
+        return Lark(g, parser='lalr', **(kw if kw_ is None else kw_))
+    kw = dict(lexer=rng.choice(['basic', 'contextual']), propagate_positions=rng.random() < 0.5) if not cached else dict(rng.choice(CACHE_VARIANTS))
     try:
         with guarded(6):
-            shared = mk()
+            shared = mk(cache=cached)
     except (GrammarError, LarkError):
         return {'nobuild': True}
     def text():
@@ -224,15 +248,28 @@ def _history(args):
     with guarded(40):
         for step in range(rng.randint(3, 9)):
             op = rng.choice(ops); s = text(); k = rng.randint(0, 3) if rng.random() < 0.4 and op != 'parse' else None
-            if rng.random() < 0.2:
-                mk()                      # another instance created in the process in between
+            other = None
+            if rng.random() < (0.6 if cached else 0.2):
+                # another instance created in the process in between (when a cache location is shared: of a different configuration, through the same location)
+                other = rng.choice([v for v in CACHE_VARIANTS if v != kw]) if cached else None
+                oi = mk(cache=cached, kw_=other)
+                if cached:
+                    g3, w3 = call(oi, op, s, k), call(mk(kw_=other), op, s, k)
+                    if g3 != w3:
+                        failures.append({'call_index': step, 'call': [op, s, k], 'on_new_instance_through_shared_cache': g3, 'on_fresh_instance': w3, 'its_options': other, 'cache': 'one file shared with an instance created earlier with options %r' % (kw,)})
+                        break
             got = call(shared, op, s, k)
-            want = call(mk(), op, s, k)
-            hist.append([op, s, k])
+            want = call(mk(), op, s, k)              # a fresh instance of the same configuration, built without any cache
+            hist.append([op, s, k] + ([{'other_instance': other}] if other is not None else []))
             if got != want:
                 failures.append({'call_index': step, 'call': [op, s, k], 'on_reused_instance': got, 'on_fresh_instance': want})
                 break
-    return {'grammar': INDENT_G if indent else g, 'options': kw, 'indenter': indent, 'history': hist, 'failures': failures}
+            if cached:
+                got2 = call(mk(cache=True), op, s, k)     # a new instance of this configuration through the shared cache location
+                if got2 != want:
+                    failures.append({'call_index': step, 'call': [op, s, k], 'on_new_instance_through_shared_cache': got2, 'on_fresh_instance': want, 'other_instance_options': other, 'cache': 'one file shared by the instances'})
+                    break
+    return {'grammar': INDENT_G if indent else g, 'options': kw, 'indenter': indent, 'history': hist, 'failures': failures, 'cached': cached}
 
 
 def run(ctx, res):
@@ -298,5 +335,7 @@ def run(ctx, res):
         res.count('histories'); res.count('calls', len(rec['history']))
         if rec['indenter']: res.count('histories_with_indenter')
         res.count('abandoned_calls', sum(1 for h in rec['history'] if h[2] is not None))
+        if rec.get('cached'): res.count('histories_with_shared_cache_location')
         for f in rec['failures']:
-            res.violation('the outcome of a call depends on earlier calls on the same instance', {'grammar': rec['grammar'], 'options': rec['options'], 'indenter': rec['indenter'], 'history': rec['history'], 'detail': f})
+            res.violation('an instance is affected by another instance created in the process (through a shared cache location)' if 'on_new_instance_through_shared_cache' in f or rec.get('cached')
+                          else 'the outcome of a call depends on earlier calls on the same instance', {'grammar': rec['grammar'], 'options': rec['options'], 'indenter': rec['indenter'], 'history': rec['history'], 'detail': f})
